@@ -4,6 +4,7 @@ use vcommon::Args;
 mod c01;
 mod c02;
 mod c06;
+mod c07;
 mod c22;
 mod c23;
 mod c28;
@@ -17,6 +18,7 @@ fn main() {
         "c01" => c01::run(&args),
         "c02" => c02::run(&args),
         "c06" => c06::run(&args),
+        "c07" => c07::run(&args),
         "c22" => c22::run(&args),
         "c23" => c23::run(&args),
         "c28" => c28::run(&args),
